@@ -386,7 +386,7 @@ def tasks_for(tier, seed):
         params = G.PARAM_LISTS[pl]
         text = G.domain_text([("act", params, pre, eff)], const=True)
         args_list = G.arg_tuples(params, True, limit=2 if tier == "quick" else 4)
-        chosen = pairs if tier == "thorough" else rng.sample(pairs, 70)
+        chosen = pairs if tier == "thorough" else rng.sample(pairs, 130)
         # always include the histories the property text names
         must = [("apply", "reapply_result"), ("apply", "apply"), ("apply", "export"), ("export", "apply"), ("apply", "combine_domains"),
                 ("new_domain", "combine_domains"), ("new_domain", "parse_other"), ("str_action", "apply"), ("applicable", "apply_allow"),
